@@ -30,10 +30,14 @@ func (vc *VC) lockOp(fr *Frame, recv SV, mode int, acquire bool, pos token.Pos) 
 		if vc.st.Locks[key] != 0 {
 			vc.oblige("lock:reacquire", []string{"C08"}, "false")
 		}
-		vc.rankCheck(lv)
+		vc.rankCheck(lv, li)
 		vc.st.Locks[key] = mode
 		if li != nil {
-			vc.lockAcquire(li, lv)
+			locs := vc.lockAcquire(li, lv)
+			if vc.st.Held == nil {
+				vc.st.Held = map[string]*heldLock{}
+			}
+			vc.st.Held[key] = &heldLock{inv: li, mode: mode, locs: locs}
 		}
 		return
 	}
@@ -44,6 +48,102 @@ func (vc *VC) lockOp(fr *Frame, recv SV, mode int, acquire bool, pos token.Pos) 
 		vc.lockRelease(li, lv, mode)
 	}
 	delete(vc.st.Locks, key)
+	delete(vc.st.Held, key)
+}
+
+// ---- guard discipline (a sufficient condition for the absence of data races) ---------
+
+type guardKind struct {
+	space  byte
+	tk     string
+	lo, hi int
+	inv    *LockInv
+}
+
+func (vc *VC) guardKindsOnce() []guardKind {
+	if vc.gkDone {
+		return vc.gkinds
+	}
+	vc.gkDone = true
+	for _, cf := range vc.eng.cfiles {
+		for _, li := range cf.LockInvs {
+			if len(li.Guards) == 0 {
+				continue
+			}
+			self := SV{L: []string{"gk!self"}}
+			if !vc.declared["gk!self"] {
+				vc.declared["gk!self"] = true
+				vc.decls = append(vc.decls, "(declare-const gk!self Int)")
+			}
+			func() {
+				defer func() {
+					if r := recover(); r != nil {
+						if _, ok := r.(vcError); !ok {
+							panic(r)
+						}
+					}
+				}()
+				for _, l := range vc.guardLocs(li, self) {
+					if l.Space == 'E' {
+						continue // slice contents: kinds are too coarse (all slices of the element type)
+					}
+					vc.gkinds = append(vc.gkinds, guardKind{l.Space, l.TK, l.Lo, l.Hi, li})
+				}
+			}()
+		}
+	}
+	return vc.gkinds
+}
+
+func (vc *VC) holdsAttr(invType string) bool {
+	if vc.fi == nil {
+		return false
+	}
+	if _, ok := vc.fi.C.Attrs["constructor"]; ok {
+		return true
+	}
+	for _, h := range strings.Split(vc.fi.C.Attrs["holds"], ";") {
+		if strings.TrimSpace(h) == invType {
+			return true
+		}
+	}
+	return false
+}
+
+// accessCheck obliges an access to guarded memory to happen under its lock.
+func (vc *VC) accessCheck(l Loc, write bool) {
+	if vc.pure > 0 || vc.fi == nil {
+		return
+	}
+	for _, gk := range vc.guardKindsOnce() {
+		if gk.space != l.Space || gk.tk != l.TK {
+			continue
+		}
+		if gk.hi != 0 && l.Hi != 0 && (l.Hi <= gk.lo || l.Lo >= gk.hi) {
+			continue
+		}
+		if vc.holdsAttr(gk.inv.Type) {
+			return
+		}
+		alts := []string{}
+		if l.Ref != "*" {
+			alts = append(alts, vc.isFreshRef(l.Ref))
+		}
+		for _, h := range vc.st.Held {
+			if h.inv != gk.inv || (write && h.mode != 1) {
+				continue
+			}
+			for _, g := range h.locs {
+				alts = append(alts, locWithin(l, g))
+			}
+		}
+		what := "read"
+		if write {
+			what = "write"
+		}
+		vc.oblige("guard:"+what+":"+gk.inv.Type+":"+shortTK(l.TK), []string{"C08"}, or(alts...))
+		return
+	}
 }
 
 func (vc *VC) atomicAccess(lv *LVal) {}
@@ -88,16 +188,19 @@ func (vc *VC) isShared(lv *LVal) bool {
 }
 
 func (vc *VC) guardCheck(lv *LVal, write bool) {
-	if vc.pure > 0 {
+	if vc.pure > 0 || lv.Space == 'V' {
 		return
 	}
-	vc.eng.guardCheck(vc, lv, write)
+	n := len(vc.eng.layoutOf(lv.Typ).L)
+	vc.accessCheck(Loc{Space: lv.Space, TK: lv.TK, Lo: lv.Leaf, Hi: lv.Leaf + n, Ref: lv.Ref, Idx: lv.Idx}, write)
 }
 
 func (vc *VC) guardCheckMap(fr *Frame, m ssa.Value, write bool) {
 	if vc.pure > 0 {
 		return
 	}
+	mi := vc.eng.mapInfoOf(m.Type())
+	vc.accessCheck(Loc{Space: 'M', TK: mi.Key, Ref: vc.val(fr, m).L[0]}, write)
 }
 
 func (vc *VC) lockEffects(fi *FuncInfo, args []SV) {}
